@@ -35,7 +35,11 @@ constexpr auto sinh_check(T const x) noexcept -> T
                   // sinh(x) = x + x^3/6 + ...: indistinguishable from x (also keeps the sign of a zero)
             etl::numeric_limits<T>::epsilon() > abs(x) ? x
                                                        :
-                                                       // else
+                                                       // small arguments: exp(x) - exp(-x) cancels, use
+                                                       // x + x^3/3! + x^5/5! + x^7/7! (next term < 3e-22 |x|)
+            T(0.01) > abs(x) ? x * (T(1) + x * x * (T(1) / T(6) + x * x * (T(1) / T(120) + x * x / T(5040))))
+                             :
+                             // else
             (exp(x) - exp(-x)) / T(2)
     );
 }
